@@ -44,8 +44,12 @@ for _pid, _txt in {
     "C16": "Exhaustive exploration of all (start,end) pairs in and across bands around every bin boundary of every level, both conventions, out-of-range values, all soundness triples (interval, query range); thorough adds the 2^14 lattice up to 2^30; oracle = kent binFromRangeExtended transcription + containment + the soundness inclusion.",
     "C17": "Exhaustive exploration of generated collections (CDS content x exon structure x strand x table x flavour; collections x locus-tag prefix/step/seed) exported to .tbl and decoded by an independent 5-column reader; oracle = source blocks 5'->3', partial marks / codon_start / pseudo from the reading-frame model, locus tag arithmetic, byte-identical reruns.",
     "C18": "Exhaustive exploration of every ordered subset of the recognised qualifier keys in three spellings with look-alike keys and notes, type-key menus, all pairs of small dictionaries for merging, and ALL permutations of the feature rows of locus-tag-complete GenBank records parsed in LOCUS_TAG mode; oracle = documented priority ranks / set union / order independence.",
+    "C07": "Exhaustive exploration of twin pairs (whole chromosome / chunk) of features, transcripts (every CDS placement, start frames 0-2), CDS, genes, feature collections and annotation collections on every exon layout x strand x EVERY chunk window; chromosome-level answers must be identical, chunk-level answers must equal the chromosome answers restricted to the window (reading-frame model for codons).",
+    "C10": "Stateless explicit-state search over call HISTORIES on the real objects: states are memo vectors (lru wrapper sizes, lazy slots, CDS path flag, shared Parents, global Parent cache condition) reached by replaying a history on a fresh object; transitions are all public zero-argument accessors (reflection), argument menus, macro calls that overflow method caches and environment actions (evict/clear/twin/alias); every answer is compared in value and concrete type with a cold fresh twin; plus operand snapshots before/after every binary/export operation.",
+    "C19": "Exhaustive enumeration of systematically corrupted constructor calls of every data-model class and of the full product of boundary-argument menus over every public method of every catalogue object and of every location of a small layout world (disjoint, zero-length and overlapping blocks); outcome must be a well-formed value or a documented exception.",
+    "C20": "Exhaustive exploration of genes / feature collections with 1-3 children of every structure, strand mix, coding mix, primary-flag vector and engineered ties, and annotation collections of <=4 members in every input order x parent kinds x bounds; oracle = pure-Python functions of the child descriptions (span, union of positions, coding, types, primary selection, iteration order, bounds inference).",
 }.items():
-    reg(_pid, _txt, COMMON_NOTE + ("Additionally trusts the harness-side compatibility layer /verif/vlib/compat (marshmallow 4 / Biopython 1.88 / pyvcf3 shims, self-tested)." if _pid in ("C12", "C17", "C18", "C04") else ""), T)
+    reg(_pid, _txt, COMMON_NOTE + ("Additionally trusts the harness-side compatibility layer /verif/vlib/compat (marshmallow 4 / Biopython 1.88 / pyvcf3 shims, self-tested)." if _pid in ("C12", "C17", "C18", "C04", "C07", "C10", "C19", "C20") else ""), T)
 
 NOT_YET = {}
 
